@@ -197,6 +197,8 @@ def gen_case(rng, root, defect="draw"):
     r_ = rng.random() if defect == "draw" else 1.0
     if defect == "empty_last_substep":
         return gen_empty_last_substep_case(rng, root)
+    if defect == "shared":
+        return gen_shared_case(rng, root)
     if r_ < 0.1:
         return gen_dotted_sibling_case(rng, root)
     if r_ < 0.37:
